@@ -189,10 +189,10 @@ CheckEqualFailure::CheckEqualFailure(UtestShell* test, const char* fileName, siz
     message_ += createButWasString(printableExpected, printableActual);
 
     size_t failStart;
-    for (failStart = 0; actual.at(failStart) == expected.at(failStart); failStart++)
+    for (failStart = 0; actual.at(failStart) == expected.at(failStart) && actual.at(failStart) != '\0'; failStart++)
         ;
     size_t failStartPrintable;
-    for (failStartPrintable = 0; printableActual.at(failStartPrintable) == printableExpected.at(failStartPrintable); failStartPrintable++)
+    for (failStartPrintable = 0; printableActual.at(failStartPrintable) == printableExpected.at(failStartPrintable) && printableActual.at(failStartPrintable) != '\0'; failStartPrintable++)
         ;
     message_ += createDifferenceAtPosString(printableActual, failStartPrintable, failStart);
 }
@@ -319,10 +319,10 @@ StringEqualFailure::StringEqualFailure(UtestShell* test, const char* fileName, s
     if((expected) && (actual))
     {
         size_t failStart;
-        for (failStart = 0; actual[failStart] == expected[failStart]; failStart++)
+        for (failStart = 0; actual[failStart] == expected[failStart] && actual[failStart] != '\0'; failStart++)
             ;
         size_t failStartPrintable;
-        for (failStartPrintable = 0; printableActual.at(failStartPrintable) == printableExpected.at(failStartPrintable); failStartPrintable++)
+        for (failStartPrintable = 0; printableActual.at(failStartPrintable) == printableExpected.at(failStartPrintable) && printableActual.at(failStartPrintable) != '\0'; failStartPrintable++)
             ;
         message_ += createDifferenceAtPosString(printableActual, failStartPrintable, failStart);
     }
@@ -340,11 +340,11 @@ StringEqualNoCaseFailure::StringEqualNoCaseFailure(UtestShell* test, const char*
     if((expected) && (actual))
     {
         size_t failStart;
-        for (failStart = 0; SimpleString::ToLower(actual[failStart]) == SimpleString::ToLower(expected[failStart]); failStart++)
+        for (failStart = 0; SimpleString::ToLower(actual[failStart]) == SimpleString::ToLower(expected[failStart]) && actual[failStart] != '\0'; failStart++)
             ;
         size_t failStartPrintable;
         for (failStartPrintable = 0;
-             SimpleString::ToLower(printableActual.at(failStartPrintable)) == SimpleString::ToLower(printableExpected.at(failStartPrintable));
+             SimpleString::ToLower(printableActual.at(failStartPrintable)) == SimpleString::ToLower(printableExpected.at(failStartPrintable)) && printableActual.at(failStartPrintable) != '\0';
              failStartPrintable++)
             ;
         message_ += createDifferenceAtPosString(printableActual, failStartPrintable, failStart);
@@ -363,7 +363,7 @@ BinaryEqualFailure::BinaryEqualFailure(UtestShell* test, const char* fileName, s
 	if ((expected) && (actual))
 	{
 		size_t failStart;
-		for (failStart = 0; actual[failStart] == expected[failStart]; failStart++)
+		for (failStart = 0; failStart < size && actual[failStart] == expected[failStart]; failStart++)
 			;
 		message_ += createDifferenceAtPosString(actualHex, (failStart * 3 + 1), failStart);
 	}
